@@ -117,6 +117,17 @@ def interpret(events, const_of=None):
                     store[_obj(a[0])] = get(_obj(a[0])) ** c
                 else:
                     store[_obj(a[0])] = get(_obj(a[0])) * Poly.const(c)
+            elif fn in ("bn_r_shift", "bn_l_shift") and len(a) >= 2:
+                c = const_of(a[1], b) if const_of else None
+                if c is None:
+                    store[_obj(a[0])] = Poly.sym("?%s(%s)" % (fn, _obj(a[0])))
+                elif fn == "bn_l_shift":
+                    store[_obj(a[0])] = get(_obj(a[0])) * Poly.const(2 ** c)
+                else:
+                    # an exact halving (the caller made the value even by adding the modulus): times the symbol `half`
+                    store[_obj(a[0])] = get(_obj(a[0])) * (Poly.sym("half") ** c)
+            elif fn == "bn_assign_zero":
+                store[_obj(a[0])] = Poly.const(0)
             elif fn == "bn_cmp":
                 compares.append((x, get(_obj(a[0])), get(_obj(a[1]))))
             elif fn.startswith("bn_mod_sqrt"):
